@@ -50,6 +50,10 @@ Proof. exact pickle_inv. Qed.
 Theorem C09_copy_is_pickle : forall c, CInv c -> io_ok_b c = true -> copy c = pickle_roundtrip c.
 Proof. exact copy_eq_pickle. Qed.
 
+(* [elim_ok_b]: a fork outside the interface with exactly one reader and a driver at pin 0 has no second input connection.  Forks
+   WITHOUT driver (ins = [] or ins[0] = None: what substitute / resolve_tlib_cells leave for unconnected instance inputs) are no
+   longer excluded: since the fix of D38 (`if len(n.ins) < 1 or n.ins[0] is None: continue`) the loop leaves them alone
+   (witness: C10_eliminate_driverless_fork_kept; before the fix the call raised IndexError on them) *)
 Theorem C09_eliminate : forall c, CInv c -> elim_ok_b c = true ->
   exists c', eliminate_1to1 c = Some c' /\ CInv c' /\ (IoLive c -> IoLive c').
 Proof. exact eliminate_inv. Qed.
